@@ -69,11 +69,11 @@ def field_rel(A, B, V, floors=None):
     return r
 
 
-def refine(F, lo, hi, xtol, arity=8, V=1.0, cnt=None, floors=None):
+def refine(F, lo, hi, xtol, arity=8, V=1.0, cnt=None, floors=None, xabs=0.0):
     """Shrink [lo, hi] onto the largest relative jump inside it.  Returns lo, hi, F(lo), F(hi)."""
     Flo = Fhi = None
     for _ in range(400):
-        if hi - lo <= xtol * max(abs(lo), abs(hi)) or hi - lo <= 4e-16 * max(abs(lo), abs(hi), 1e-300):
+        if hi - lo <= max(xtol * max(abs(lo), abs(hi)), xabs) or hi - lo <= 4e-16 * max(abs(lo), abs(hi), 1e-300):
             break
         sub = np.linspace(lo, hi, arity + 1)
         if not (np.diff(sub) > 0).all():
@@ -150,7 +150,7 @@ def locate(F, a, b, n=513, geometric=False, min_rel=1e-3, arity=8, xtol=1e-13, m
         if not peaks:
             peaks = [max(run, key=lambda j: cell[j])]
         for i in sorted(peaks, key=lambda j: -cell[j])[:6]:
-            lo, hi, Flo, Fhi, floors = refine(F, float(xs[i]), float(xs[i + 1]), xtol, arity, V, cnt, floors0)
+            lo, hi, Flo, Fhi, floors = refine(F, float(xs[i]), float(xs[i + 1]), xtol, arity, V, cnt, floors0, xabs=1.5 * pad)
             if pad:
                 lo, hi, Flo, Fhi = padded(F, lo, hi, pad, a, b, cnt)
             ok, r = genuine(F, lo, hi, Flo, Fhi, V, min_rel, a, b, cnt, floors)
@@ -184,7 +184,7 @@ def track(F, j, a, b, arity=8, xtol=1e-13, cnt=None, wmax=None, w0=1e-11, hint=N
     d0 = j["R"][i] - j["L"][i]
     V = j["V"]
     scale = max(abs(x0), 1e-300)
-    w = w0 * scale
+    w = max(w0 * scale, 8.0 * pad)
     wmax = wmax if wmax is not None else 0.25 * scale
     while True:
         lo, hi = max(a, x0 - w), min(b, x0 + w)
@@ -200,7 +200,7 @@ def track(F, j, a, b, arity=8, xtol=1e-13, cnt=None, wmax=None, w0=1e-11, hint=N
         if w >= wmax:
             return None
         w = min(8 * w, wmax)
-    lo, hi, Flo, Fhi, floors = refine(F, lo, hi, xtol, arity, V, cnt, j.get("floors"))
+    lo, hi, Flo, Fhi, floors = refine(F, lo, hi, xtol, arity, V, cnt, j.get("floors"), xabs=1.5 * pad)
     if pad:
         lo, hi, Flo, Fhi = padded(F, lo, hi, pad, a, b, cnt)
     r = field_rel(Flo, Fhi, V, floors)
